@@ -25,6 +25,8 @@ def prior_kwargs(cfg):
     if cfg["means"] == "nonzero":
         kw["mu_v"] = (5.0, 0.2, -0.01)
         kw["off_mu"] = (1.0, -2.0)
+    # half of the configurations write their integral prior constants as Python ints (pytensor keeps them as small integer constants)
+    kw["int_consts"] = (cfg["poly_trend"] + cfg["n_offsets"]) % 2 == 0
     return kw
 
 
